@@ -33,6 +33,7 @@ import (
 	"errors"
 	"fmt"
 	"io"
+	"log/slog"
 	"math/big"
 	"net"
 	"net/http"
@@ -40,6 +41,7 @@ import (
 	"net/textproto"
 	"os"
 	"os/exec"
+	"regexp"
 	"sort"
 	"strconv"
 	"strings"
@@ -63,7 +65,23 @@ func runH3E2E(w *bufio.Writer, seed uint64, n int, args []string) {
 		h3eChild(w, seed, n)
 		return
 	}
-	cmd := exec.Command(os.Args[0], "h3e2e", strconv.FormatUint(seed, 10), strconv.Itoa(n), "child")
+	if len(args) > 0 && strings.HasPrefix(args[0], "child-abandon:") {
+		k, _ := strconv.Atoi(strings.TrimPrefix(args[0], "child-abandon:"))
+		h3eChildAbandon(w, seed, k)
+		return
+	}
+	h3eRunChild(w, seed, n, "child")
+	// peers that go away while the handler is still writing a response with trailers
+	// (own process: if it dies, everything above has still been checked)
+	for k := 0; k < 6; k++ {
+		h3eRunChild(w, seed, n, fmt.Sprintf("child-abandon:%d", k))
+	}
+}
+
+var h3ePanicSite = regexp.MustCompile(`uquic/http3\.([A-Za-z0-9_().*]+)\(`)
+
+func h3eRunChild(w *bufio.Writer, seed uint64, n int, mode string) {
+	cmd := exec.Command(os.Args[0], "h3e2e", strconv.FormatUint(seed, 10), strconv.Itoa(n), mode)
 	cmd.Env = os.Environ()
 	var stderr bytes.Buffer
 	cmd.Stderr = &stderr
@@ -92,17 +110,26 @@ func runH3E2E(w *bufio.Writer, seed uint64, n int, args []string) {
 		se := stderr.String()
 		key := "h3e2e/child-died"
 		desc := fmt.Sprintf("the process running the real server and client died (%v)", err)
-		if i := strings.Index(se, "panic:"); i >= 0 {
-			key = "h3/panic"
-			desc = "the HTTP/3 server or client panicked"
-			se = se[i:]
-		} else if i := strings.Index(se, "fatal error:"); i >= 0 {
-			key = "h3/panic"
-			desc = "the HTTP/3 server or client crashed the runtime"
-			se = se[i:]
+		i := strings.Index(se, "panic:")
+		if i < 0 {
+			i = strings.Index(se, "fatal error:")
 		}
-		if len(se) > 3000 {
-			se = se[:3000]
+		if i >= 0 {
+			se = se[i:]
+			// the key names the first frame of this module's http3 package on the panicking stack
+			site := "unknown"
+			if m := h3ePanicSite.FindStringSubmatch(se); m != nil {
+				site = strings.NewReplacer("(", "", ")", "", "*", "").Replace(m[1])
+			}
+			key = "h3/panic/" + site
+			first := se
+			if j := strings.Index(first, "\n"); j >= 0 {
+				first = first[:j]
+			}
+			desc = "the HTTP/3 server or client panicked (whole process down): " + first
+		}
+		if len(se) > 2500 {
+			se = se[:2500]
 		}
 		fmt.Fprintf(w, "MONFAIL\t%s\t%s\tlast scenario: %s | %s\n", key, desc, last, strings.ReplaceAll(strings.ReplaceAll(se, "\n", " | "), "\t", " "))
 	}
@@ -1312,6 +1339,130 @@ func h3eChild(w *bufio.Writer, seed uint64, n int) {
 	}
 	wd.rawServerScenarios(stls, ctls, r.Fork(), nRS)
 	wd.line("SCENARIO\tshutdown")
+	srv.Close()
+	udp.Close()
+	wd.line("CHILD-DONE")
+}
+
+// ---------- child 2: the peer goes away while a response with trailers is being written ----------
+
+func h3eChildAbandon(w *bufio.Writer, seed uint64, which int) {
+	r := u.NewRng(seed + uint64(which))
+	wd := &h3eWorld{specs: map[int]*h3eSpec{}, seen: map[int]*h3eSeen{}, w: w}
+	stls, ctls := h3eTLS()
+	udp, err := net.ListenUDP("udp4", &net.UDPAddr{IP: net.IPv4(127, 0, 0, 1)})
+	if err != nil {
+		wd.line("CHILD-DONE")
+		return
+	}
+	handlerDone := make(chan string, 64)
+	h := func(w http.ResponseWriter, req *http.Request) {
+		if req.URL.Path == "/ping" {
+			w.Write([]byte("pong"))
+			return
+		}
+		if req.URL.Path == "/forbidden-trailer" {
+			// net/http semantics: a forbidden trailer name in "Trailer" is ignored
+			w.Header().Set("Trailer", "Content-Length, X-T")
+			w.WriteHeader(200)
+			w.Write([]byte("body"))
+			w.Header().Set("X-T", "v")
+			return
+		}
+		declared := req.URL.Query().Get("declared") == "1"
+		if declared {
+			w.Header().Set("Trailer", "X-T")
+		}
+		w.WriteHeader(200)
+		w.Write(make([]byte, 4096))
+		w.(http.Flusher).Flush()
+		select { // until the peer has gone away
+		case <-req.Context().Done():
+		case <-time.After(2 * time.Second):
+		}
+		time.Sleep(20 * time.Millisecond)
+		_, werr := w.Write(make([]byte, 100))
+		if declared {
+			w.Header().Set("X-T", "v")
+		} else {
+			w.Header().Set(http.TrailerPrefix+"X-T", "v")
+		}
+		handlerDone <- fmt.Sprintf("late write err=%v", werr)
+	}
+	srv := &http3.Server{Handler: http.HandlerFunc(h), TLSConfig: stls, QUICConfig: &quic.Config{}, Logger: nil}
+	if which == 4 { // control: the same with a logger set
+		srv.Logger = slog.New(slog.NewTextHandler(io.Discard, nil))
+	}
+	go srv.Serve(udp)
+	base := fmt.Sprintf("https://localhost:%d", udp.LocalAddr().(*net.UDPAddr).Port)
+	if which == 5 {
+		wd.line("SCENARIO\tforbidden-trailer-name: handler declares Trailer: Content-Length, X-T; http3.Server.Logger nil")
+		wd.line("DIST\tforbidden-trailer-name\t1")
+		tr := &http3.Transport{TLSClientConfig: ctls.Clone()}
+		ctx, cancel := context.WithTimeout(context.Background(), 5*time.Second)
+		req, _ := http.NewRequestWithContext(ctx, "GET", base+"/forbidden-trailer", nil)
+		res, err := tr.RoundTrip(req)
+		var b []byte
+		if err == nil {
+			b, err = io.ReadAll(res.Body)
+		}
+		if err != nil || string(b) != "body" {
+			wd.fail("h3/nil-logger/responseWriter.declareTrailer", "a handler that declares a forbidden trailer name gets no response through when Server.Logger is nil (responseWriter.declareTrailer logs through the nil logger and panics inside the handler; the server recovers and resets the stream)", fmt.Sprintf("GET /forbidden-trailer: handler sets Trailer: Content-Length, X-T then writes 200 + body => client err=%v body=%q", err, b))
+		}
+		cancel()
+		tr.Close()
+		srv.Close()
+		udp.Close()
+		wd.line("CHILD-DONE")
+		return
+	}
+	for _, how := range []string{[]string{"close-body-early", "close-connection", "cancel-context", "close-body-early", "close-body-early", ""}[which]} {
+		declared := which == 3 || which != 0 && r.Bool()
+		wd.line("SCENARIO\tpeer-goes-away/%s declared-trailer=%v: GET with a handler that writes 4 KiB, waits for the peer to go away, writes again and sets a trailer; http3.Server.Logger nil=%v", how, declared, which != 4)
+		wd.line("DIST\tpeer-goes-away/%s\t1", how)
+		tr := &http3.Transport{TLSClientConfig: ctls.Clone()}
+		ctx, cancel := context.WithCancel(context.Background())
+		q := "0"
+		if declared {
+			q = "1"
+		}
+		req, _ := http.NewRequestWithContext(ctx, "GET", base+"/abandon?declared="+q, nil)
+		res, err := tr.RoundTrip(req)
+		if err != nil {
+			wd.fail("h3e2e/roundtrip-error", "RoundTrip failed: "+err.Error(), how)
+			cancel()
+			tr.Close()
+			continue
+		}
+		io.ReadFull(res.Body, make([]byte, 10))
+		switch how {
+		case "close-body-early":
+			res.Body.Close()
+		case "close-connection":
+			tr.Close()
+		case "cancel-context":
+			cancel()
+		}
+		select {
+		case <-handlerDone:
+		case <-time.After(4 * time.Second):
+		}
+		time.Sleep(100 * time.Millisecond) // the post-handler flush of body and trailers runs now
+		cancel()
+		tr.Close()
+		// the server must still answer
+		tr2 := &http3.Transport{TLSClientConfig: ctls.Clone()}
+		ctx2, cancel2 := context.WithTimeout(context.Background(), 5*time.Second)
+		req2, _ := http.NewRequestWithContext(ctx2, "GET", base+"/ping", nil)
+		res2, err := tr2.RoundTrip(req2)
+		if err != nil {
+			wd.fail("h3e2e/server-dead-after-abandon", "the server no longer answers after a peer went away mid-response: "+err.Error(), how)
+		} else {
+			res2.Body.Close()
+		}
+		cancel2()
+		tr2.Close()
+	}
 	srv.Close()
 	udp.Close()
 	wd.line("CHILD-DONE")
